@@ -106,18 +106,16 @@ def run(ctx):
     dist = {}
     if ctx.model_ok:
         r = ctx.rng
-        for fname, group, expect, keys in lc.load_corpus("C12"):
-            lc.decide(ctx, exe, "C12c", [group], MODE, known, keys=keys, nontrivial=nontrivial, expect=[expect])
-            dist["corpus"] = dist.get("corpus", 0) + 1
-        n = 170 if ctx.quick else 4000
-        nd = 20 if ctx.quick else 400
+        dist["corpus"] = lc.run_corpus(ctx, exe, "C12", MODE, known, nontrivial)
+        n = 140 if ctx.quick else 4000
+        nd = 12 if ctx.quick else 400
         groups = [[gen_c12(r, r.randrange(2, 8))] for _ in range(n)]
         groups += [[gen_c12(r, r.randrange(11, 16), deep=True)] for _ in range(nd)]     # pruning window
         # rollbacks in an unstructured stream (odd commit heights, missing journals, refusals)
-        m = 60 if ctx.quick else 1500
+        m = 45 if ctx.quick else 1500
         groups += [[[o for o in lc.gen_soup(r, r.randrange(10, 60)) if o[0] != "getcommitted" and not (o[0] == "setcode" and o[2] is None)]]
                    for _ in range(m)]
-        groups += lc.scenario_groups(r, 4 if ctx.quick else 60)
+        groups += lc.scenario_groups(r, 3 if ctx.quick else 60)
         # non-UTF-8 storage keys (open finding): own key universe
         bad_keys = [b"\xff\x01", b"\xfe", b"a", b"\xc3\xa9", b"\xc3"]
         tot = dict(ok=0, known=0, violation=0, mismatch=0, domain=0)
@@ -126,6 +124,8 @@ def run(ctx):
             st = lc.decide(ctx, exe, "C12g%d" % (s // step), groups[s:s + step], MODE, known, nontrivial=nontrivial)
             for k in st:
                 tot[k] = tot.get(k, 0) + st[k]
+        exact_groups = [f(r) for f in lc.EXACT_SCENARIOS for _ in range(6 if ctx.quick else 80)]
+        dist["exact_presence"] = lc.decide(ctx, exe, "C12x", exact_groups, MODE | 16, known, nontrivial=nontrivial)
         # printable keys that look like hex literals (journal key encodings must not confuse them)
         hex_keys = [b"0x", b"0xab12", b"0xC0FFEE", b"0x6162", b"ab", b"0"]
         saved = lc.KEYS
